@@ -72,6 +72,15 @@ let () =
             done;
             Printf.printf "S %s %016Lx\n" id !h
           end
+      | ["G"; id; ops; impl_flags] when spec_mode ->
+          (* the table seen from outside: sender key = fab * 2^64 + node *)
+          let two64 = n_of_string "18446744073709551616" in
+          let items = List.mapi (fun i op ->
+            match String.split_on_char ':' op with
+            | [f; n; c] ->
+                ((N.add (N.mul (n_of_string f) two64) (n_of_string n), n_of_string c), impl_flags.[i] = '1')
+            | _ -> failwith "bad G op") (split_on ',' ops) in
+          Printf.printf "G %s %d\n" id (if g_monitor items then 1 else 0)
       | ["G"; id; ops] ->
           if not spec_mode then begin
             let st = ref gstore_new in
